@@ -209,7 +209,13 @@ func c04Script(d c04Desc) *Script {
 		return genScript(rng, d.Role, d.Params, scriptOpts{MinMsgs: 2, MaxMsgs: 4, MaxSize: 70000, Big: true, Controls: !strings.HasSuffix(d.Reader, "+failing-writes")})
 	}
 	// (with failing writes no Ping is sent: its Pong could not be written, which legitimately fails the read)
-	return genScript(rng, d.Role, d.Params, scriptOpts{MinMsgs: 2, MaxMsgs: 4, MaxSize: 200, Controls: !strings.HasSuffix(d.Reader, "+failing-writes")})
+	// (a fifth of the scripts carry a Close frame somewhere - also between the fragments of a message, where it
+	// ends nothing cleanly: the message it interrupts has not been received completely)
+	closeChance := 0
+	if d.Seed%5 == 0 && !strings.HasSuffix(d.Reader, "+failing-writes") {
+		closeChance = 100
+	}
+	return genScript(rng, d.Role, d.Params, scriptOpts{MinMsgs: 2, MaxMsgs: 4, MaxSize: 200, Controls: !strings.HasSuffix(d.Reader, "+failing-writes"), CloseChance: closeChance})
 }
 
 func c04Run(r *fw.R, d c04Desc) {
